@@ -39,6 +39,7 @@
 #endif	/* HAVE_CONFIG_H */
 #include <stdlib.h>
 #include <string.h>
+#include <limits.h>
 #include "evrrul.h"
 #include "nifty.h"
 
@@ -1565,6 +1566,10 @@ rrul_fill_wly(echs_instant_t *restrict tgt, size_t nti, rrulsp_t rr)
 	/* fill up the array the hard way */
 	for (res = 0UL, maxd = echs_scale_ndim(srcsca, y, m); res < nti;
 	     ({
+		     if (UNLIKELY(rr->inter > (UINT_MAX - 31U) / 7U)) {
+			     /* that many days no calendar can reckon with */
+			     goto fin;
+		     }
 		     d += rr->inter * 7U;
 		     while (d > maxd) {
 			     if (UNLIKELY(!maxd)) {
